@@ -332,6 +332,20 @@ def r3_file_searchers(chk):
                 total += 1
                 chk.ob('C10.R3', tag + '/case-mapping %s' % norm(n), False, where(mod, n),
                        'module name is case-mapped before the lookup, so another module\'s file can answer')
+        # the suffix appended to the candidate is the configured one: the loop variable over the suffix list is not
+        # re-assigned (a "normalised" extension no longer names the file the writer stored)
+        for lp in [n for n in walk_no_nested(fn) if isinstance(n, ast.For)]:
+            tvars = [t.id for t in (lp.target.elts if isinstance(lp.target, ast.Tuple) else [lp.target])
+                     if isinstance(t, ast.Name)]
+            if not any(k in norm(lp.iter) for k in ('exts', 'suffixes', 'SUFFIXES', 'Suffixes')):
+                continue
+            reb = [x for x in walk_no_nested(lp) if isinstance(x, (ast.Assign, ast.AugAssign)) and any(
+                isinstance(t, ast.Name) and t.id in tvars for t in (x.targets if isinstance(x, ast.Assign) else [x.target]))]
+            total += 1
+            chk.ob('C10.R3', tag + '/suffix-as-configured(%s)' % norm(lp.iter)[:30], not reb,
+                   where(mod, reb[0]) if reb else where(mod, lp),
+                   'the suffix is rewritten before it is appended (`%s`): the searcher looks for another file name '
+                   'than the writer used' % (norm(reb[0])[:60] if reb else ''))
         joins = [n for n in walk_no_nested(fn) if isinstance(n, ast.Call) and dotted_name(n.func) == 'os.path.join'
                  and any(p_name in [m.id for m in ast.walk(a) if isinstance(m, ast.Name)] for a in n.args)]
         chk.ob('C10.R3', tag + '/candidate-path', bool(joins) or cname == 'PyPackageSearcher', where(mod, fn),
